@@ -20,6 +20,7 @@ func main() {
 	g := flag.Int("goroutines", 8, "number of goroutines")
 	writeBase := flag.String("write-baseline", "", "run every operation once, sequentially, and write name -> observation to this file")
 	baseFlag := flag.String("baseline", "", "compare observations with this file (written by a GOMAXPROCS=1 run in another process)")
+	limit := flag.Int("timeout", 240, "seconds after which calls that have not returned count as deadlocked")
 	flag.Parse()
 	if *writeBase != "" {
 		m := map[string]string{}
@@ -70,8 +71,8 @@ func main() {
 	go func() { wg.Wait(); close(done) }()
 	select {
 	case <-done:
-	case <-time.After(240 * time.Second):
-		fmt.Println("calls did not return within 240 seconds (deadlock?)")
+	case <-time.After(time.Duration(*limit) * time.Second):
+		fmt.Printf("calls did not return within %d seconds (deadlock?)\n", *limit)
 		os.Exit(1)
 	}
 	// goroutines started by the library must be gone (a leaked one never exits: the grace only delays)
